@@ -567,11 +567,6 @@ func RunTwin(serial *Exec, parallelism int, compare bool) (par *Exec, mon *Monit
 			return r
 		}
 		r1, r2 := ran(s), ran(ref)
-		for _, ev := range s.Raw {
-			if ev.K == "EvUnnec" && r1[ev.N] != r2[ev.N] {
-				heldDiverged[ev.N] = true
-			}
-		}
 		if fmt.Sprint(u1) != fmt.Sprint(u2) {
 			only := true
 			in := func(l []int, x int) bool {
@@ -613,6 +608,13 @@ func RunTwin(serial *Exec, parallelism int, compare bool) (par *Exec, mon *Monit
 				differ("the set of nodes reported as updated")
 			}
 			findings[len(findings)-1].What += fmt.Sprintf(" (reported updated: parallel %v, serial %v)", u1, u2)
+		}
+		// marked only now: in the pass that drops the node the two stabilizers must still agree on
+		// what is reported as updated (the dropped node reports nothing under either)
+		for _, ev := range s.Raw {
+			if ev.K == "EvUnnec" && r1[ev.N] != r2[ev.N] {
+				heldDiverged[ev.N] = true
+			}
 		}
 		if len(s.Heap) != len(ref.Heap) {
 			differ("the number of queued nodes")
